@@ -272,6 +272,13 @@ class UGenList(List[T]):
         return f'UGenList({list.__repr__(self)})'
 
 
+class UGenList2(List[T]):
+    """A second user generic subclassing list (distinguishable from UGenList)."""
+
+    def __repr__(self):
+        return f'UGenList2({list.__repr__(self)})'
+
+
 class UGenPlain(Generic[T]):
     """User generic with no checkable pseudo-superclass."""
 
